@@ -454,6 +454,21 @@ func runObject(c OCase) error {
 	if !bytes.Equal(arena, pristine) {
 		return fmt.Errorf("Encode changed the application's buffer around the raw block it was given")
 	}
+	// the frames belong to the application: it overwrites them (spare capacity included); the object encodes as before
+	for _, k := range kept {
+		ev.Trash(k.got)
+	}
+	if cur != nil {
+		raw := []byte{0x21, 0x10, 0x04}
+		fb, err := ad.Encode(raw)
+		if err != nil {
+			return fmt.Errorf("Encode after the application overwrote the frames returned earlier: %v", err)
+		}
+		h, p, rest, err := adtsref.Parse(fb)
+		if err != nil || h.Profile != profileOf(cur.object) || h.SFI != cur.sfi || h.Channels != cur.ch || h.FrameLength != 7+len(raw) || !bytes.Equal(p, raw) || len(rest) != 0 {
+			return fmt.Errorf("after the application overwrote the frames returned earlier, Encode writes %x (ISO parser: %+v, err %v), the object is configured with object %d index %d channels %d", head(fb), h, err, cur.object, cur.sfi, cur.ch)
+		}
+	}
 	return nil
 }
 
